@@ -2,7 +2,7 @@
 import json
 import random
 
-from .. import flow, corr_bm, oracles_bm as ob
+from .. import core, flow, corr_bm, oracles_bm as ob
 
 PROOFS = ['Tsv.Proofs.BMCore', 'Tsv.Proofs.BMCache', 'Tsv.Proofs.C05']
 TRUSTED = ["Lean 4.33 kernel + Mathlib", "hand-written Brownian model Model/Brownian.lean, tied to the real BrownianInterval by the "
@@ -21,7 +21,7 @@ def run(rep, tier, seed):
     rep.ob('correspondence:brownian-model', f"{c.get('configs', 0)} objects / {c.get('queries', 0)} queries", c['ok'],
            json.dumps(c.get('mismatches') or c.get('error', ''), default=str)[:1800])
     rep.cov['correspondence'] = {k: v for k, v in c.items() if k != 'mismatches'}
-    fails, st = ob.requery_search(rng, 15 if tier == 'quick' else 300, 80 if tier == 'quick' else 200)
+    fails, st = core.safe(ob.requery_search, rng, 15 if tier == 'quick' else 300, 80 if tier == 'quick' else 200)
     rep.ob('oracle:requery-bits-on-real-objects', f"{st['requeries']} re-queries", not fails, json.dumps(fails[:1], default=str)[:1200])
     rep.cov['real_code_oracle'] = st
     rep.cov.update(evaluations=st['queries'], distinct_nontrivial=st['requeries'],
